@@ -13,11 +13,12 @@ CONSTANT VariantRule
 Var == INSTANCE LachesisDef WITH Rule <- VariantRule
 
 \* the variant accepts every event (with its standard frame) ...
+Sub(e) == [x \in anc[e] |-> IF x = e THEN [ev[x] EXCEPT !.fr = 0] ELSE ev[x]]      \* e's ancestry with e's own frame still to be determined
 VarAccepts == \A e \in Ids :
-    Var!Allowed([x \in anc[e] |-> ev[x]], [x \in anc[e] |-> anc[x]], anc[e], Var!SpFrame(ev, e), ev[e].sp # None, ev[e].fr)
+    Var!Allowed(Sub(e), [x \in anc[e] |-> anc[x]], anc[e], Var!SpFrame(ev, e), ev[e].sp # None, ev[e].fr)
 \* ... and would build the same frame for it ...
 VarBuildsSame == \A e \in Ids :
-    LET evs == [x \in anc[e] |-> ev[x]]  ans == [x \in anc[e] |-> anc[x]] IN
+    LET evs == Sub(e)  ans == [x \in anc[e] |-> anc[x]] IN
     (IF ev[e].sp = None THEN Var!MaxAllowedNoSp(evs, ans, anc[e]) ELSE Var!MaxAllowed(evs, ans, anc[e], Var!SpFrame(ev, e)))
       = (IF ev[e].sp = None THEN MaxAllowedNoSp(evs, ans, anc[e]) ELSE MaxAllowed(evs, ans, anc[e], SpFrame(ev, e)))
 \* ... and elects the same Atropoi
